@@ -57,9 +57,10 @@ package core
 
 //@ func (*IDAllocator).Reserve
 //@   property C27
-//@   requires a == nil || math(a.next.v) + math(n) <= 18446744073709551615
-//@   ensures [fresh-interval] a != nil && n != 0 ==> err == nil && last == old(a.next.v) + n && first == old(a.next.v) + 1 && a.next.v == last && first > old(a.next.v) && first <= last
+//@   ensures [fresh-interval] a != nil && n != 0 && math(old(a.next.v)) + math(n) <= 18446744073709551615 ==> err == nil && last == old(a.next.v) + n && first == old(a.next.v) + 1 && a.next.v == last && first > old(a.next.v) && first <= last
 //@   ensures [rejected-unchanged] a != nil && n == 0 ==> err != nil && a.next.v == old(a.next.v)
+//@   ensures [exhausted-space-is-refused-not-wrapped] a != nil && n != 0 && math(old(a.next.v)) + math(n) > 18446744073709551615 ==> err != nil && a.next.v == old(a.next.v)
+//@   loop 1 invariant [retry-sees-the-same-counter] a != nil && n != 0 && a.next.v == old(a.next.v)
 //@   modifies a.next.v
 
 // Route lookup. Proved: GetRegionByKey reports success only if the key lies inside the
